@@ -67,17 +67,23 @@ func fname(fn *ssa.Function) string { return core.FuncName(fn) }
 // NewCtx creates a check context.
 func NewCtx(p *core.Program, r *core.Report, tier string) *Ctx {
 	initAtomAliases(p.Funcs)
-	globalStoreFuncs = globalStoreFuncs[:0]
+	var sf []*ssa.Function
 	seenPkg := map[*ssa.Package]bool{}
 	for _, fn := range p.Funcs {
-		globalStoreFuncs = append(globalStoreFuncs, fn)
-		globalStoreFuncs = append(globalStoreFuncs, fn.AnonFuncs...)
+		sf = append(sf, fn)
+		sf = append(sf, fn.AnonFuncs...)
 		if fn.Pkg != nil && !seenPkg[fn.Pkg] {
 			seenPkg[fn.Pkg] = true
 			if ini := fn.Pkg.Func("init"); ini != nil {
-				globalStoreFuncs = append(globalStoreFuncs, ini)
+				sf = append(sf, ini)
 			}
 		}
+	}
+	if len(p.Funcs) > 0 {
+		storeFuncsMu.Lock()
+		storeFuncsByProg[p.Funcs[0].Prog] = sf
+		globalStoreFuncs = sf
+		storeFuncsMu.Unlock()
 	}
 	return &Ctx{P: p, R: r, Tier: tier, guarded: map[string]string{}}
 }
